@@ -103,6 +103,34 @@ def run(ck, P):
         ck.ob("C07.1-ONE-PER-THREAD", ev.fn.site("setspecific"), ok, "pthread_setspecific(%s) at line %d in %s" % (S(ev.args[1]), ev.line, ev.fn.name),
               nontrivial=False)
 
+    # the thread's slot is set as the very last step of building a context: nothing that can fail comes after it (a registration that
+    # fails later would release the context and leave the slot pointing at freed memory: context calls "succeed" on a thread without one).
+    # What allocation failures before that point do to the half-built context is outside the property (DESIGN 10.7).
+    cn = P.fn("ctx_new", "Lib/core/ctx.c")
+    ck.analysed(cn)
+    att = [e for e in cn.calls("pthread_setspecific") if strip(e.args[1])["k"] != "null"]
+    ck.need(len(att) == 1, "ctx_new attaches the context %d time(s)" % len(att))
+    FALLIBLE = {"poll_create", "m_map_new", "fs_create", "m_mem_new", "mem_strdup"}
+    badc = None
+    nc = 0
+    for path in cn.paths():
+        evs = list(rules.path_events(cn, path))
+        rets_ = [e for e in evs if e.kind == "ret" and e.e is not None]
+        if not rets_:
+            continue
+        asm = rules.path_assumes(path)
+        if asm.get("new_ctx") is False:
+            continue                                  # nothing was built
+        nc += 1
+        ai = [i for i, e in enumerate(evs) if e in att]
+        late = [e.callee for e in evs[ai[0] + 1:] if e.kind == "call" and e.callee in FALLIBLE] if ai else []
+        rel = [e for e in evs if e.kind == "call" and e.callee in ("m_mem_unref", "m_mem_unrefp") and S(e.args[0]).lstrip("&") == "new_ctx"]
+        if late:
+            badc = ("%s() can still fail after the context was attached to the thread" % late[0], path)
+    ck.ob("C07.1-ONE-PER-THREAD", cn.site("attach is the last fallible step"), badc is None and nc > 0,
+          "%d path(s): the slot is set after every fallible step" % nc if badc is None else badc[0],
+          path=rules.fmt_path(cn, badc[1]) if badc else None)
+
     # ------------------------------------------------------------------ 2. no context => error before any effect
     ck.rule("C07.2-NOCTX", "R-GUARD-TABLE: every public m_ctx_* entry point except m_ctx_register obtains the context through "
             "m_ctx() and returns -EPIPE (NULL for pointer getters) before any effect when there is none; the thread-specific "
@@ -334,6 +362,10 @@ def run(ck, P):
     mk = P.fn("make_key")
     ck.ob("C07.7-KEY-ONCE", mk.site("pthread_key_create"), any(S(e.args[0]) == "&key" for e in mk.calls("pthread_key_create")),
           "make_key creates the key", nontrivial=False)
+
+    ck.rule("C07.8-FLAG-BITS", "R-FLAG-BITS: m_ctx_flags are single distinct bits", floor=1)
+    from props.flags import flag_bits
+    flag_bits(ck, P, "C07.8-FLAG-BITS", "m_ctx_flags", "Lib/core")
 
     ck.not_decided += ["that all modules become ZOMBIE and are released for every state mix at teardown (depends on C01/C04 as wholes)",
                        "module operations on a thread without context (decided under C14)"]
